@@ -29,4 +29,4 @@ def field(k):
 name = re.sub(r'[^a-z0-9\-]', '', (field('Name') or mut).lower())[:70]
 files = sorted(set(re.findall(r'^\+\+\+ b/(\S+)', open(os.path.join(m, 'patch.diff')).read(), re.M)))
 json.dump({'summary': SUMMARIES.get((pid, mut)) or field('Expected'), 'needs': field('Needs'), 'files': files}, open(os.path.join(m, 'meta.json'), 'w'), indent=1)
-subprocess.run(['python3', '/verif/tools/keep_seed.py', pid, m, f'{pid}-r7-{name}', detected], check=True)
+subprocess.run(['python3', '/verif/tools/keep_seed.py', pid, m, f'{pid}-{os.environ.get("ROUND", "r7")}-{name}', detected], check=True)
